@@ -217,6 +217,18 @@ func compareOp(op J, r *LineResult) (string, string) {
 	if strings.HasPrefix(impl, "timeout") {
 		return "blocked: " + impl, "blocked: " + impl
 	}
+	if r.Fired || r.MFired {
+		// a store fault was injected into this call: the property's oracle is "an error is reported" (the
+		// dump that follows checks that nothing changed); the specification, which knows no faults, is not asked
+		sp, mp := "", ""
+		if r.Fired && !strings.HasPrefix(impl, "err") {
+			sp = "a store fault injected into this operation was swallowed: " + impl
+		}
+		if r.Fired != r.MFired || !lineEq(impl, model) {
+			mp = fmt.Sprintf("impl %s (fired=%v) model %s (fired=%v)", impl, r.Fired, model, r.MFired)
+		}
+		return sp, mp
+	}
 	specP, modelP := "", ""
 	implDocs, isDocs := splitDocs(impl)
 	_, hasQ := qOf(op)
